@@ -18,18 +18,22 @@ import (
 
 // Plan describes the faults of one file (keyed by path in Fs.Plans).
 type Plan struct {
-	ReadChunk   int   // >0: reads return at most this many bytes
-	ZeroReads   []int // indexes of Read calls that return (0, nil)
-	ReadErrAt   int64 // >=0: Read fails with EIO once the offset reaches this byte
-	ReadErrOnce bool  // the read error is transient: it is returned by one Read call, later reads of the same bytes succeed
-	readErrDone bool
-	OpenErr     error // Open/OpenFile fails
-	SeekErr     bool  // Seek fails
-	WriteErrAt  int64 // >=0: Write fails with WriteErr after this many bytes were written (short write before)
-	WriteErr    error
-	ShortWrites int // >0: each Write writes at most this many bytes then returns io.ErrShortWrite... (n < len, err != nil)
-	CloseErr    error
-	Delay       time.Duration // each I/O call sleeps (slow disk)
+	ReadChunk int   // >0: reads return at most this many bytes
+	ZeroReads []int // indexes of Read calls that return (0, nil)
+	ReadErrAt int64 // >=0: Read fails with EIO once the offset reaches this byte
+	// VanishAfterReads > 0: after this many Read calls the file is empty for every reader (it was truncated under the
+	// reader: log rotation, a deploy replacing the ammo file): Read returns EOF at once, Seek still works
+	VanishAfterReads int
+	vanishReads      int
+	ReadErrOnce      bool // the read error is transient: it is returned by one Read call, later reads of the same bytes succeed
+	readErrDone      bool
+	OpenErr          error // Open/OpenFile fails
+	SeekErr          bool  // Seek fails
+	WriteErrAt       int64 // >=0: Write fails with WriteErr after this many bytes were written (short write before)
+	WriteErr         error
+	ShortWrites      int // >0: each Write writes at most this many bytes then returns io.ErrShortWrite... (n < len, err != nil)
+	CloseErr         error
+	Delay            time.Duration // each I/O call sleeps (slow disk)
 }
 
 func (p *Plan) readErrKind() string {
@@ -162,6 +166,13 @@ func (fl *File) Read(b []byte) (int, error) {
 		if z == idx && len(b) > 0 {
 			fl.fs.fire("zero-read")
 			return 0, nil
+		}
+	}
+	if p.VanishAfterReads > 0 {
+		p.vanishReads++
+		if p.vanishReads > p.VanishAfterReads {
+			fl.fs.fire("file-truncated-under-reader")
+			return 0, io.EOF
 		}
 	}
 	errAt := p.ReadErrAt
